@@ -182,6 +182,38 @@ func runRPause(c *drv.Ctx) error {
 	return w.Flush()
 }
 
+func runConcurrent(c *drv.Ctx) error {
+	w := cw.New(c.Out, concHeader, "ccase", []cw.Check{{Name: "MISMATCH", Fn: "ccase_ok"}, {Name: "MON20", Fn: "ccase_mon"}})
+	w.ShardSize = 100
+	w.Stats.Rule = "one real requestor and one real responder over the mocknet, two requests in flight at once: request 1 = a generated DAG from its root, request 2 = the sub-DAG under one of its blocks (3/4, overlapping) or a second disjoint DAG (1/4); 2/3 of the cases force the losing order with a responder store gate (request 1 served up to g links, then request 2 entirely) and a requestor store gate (request 1's root commit held until request 2 completed), the rest run free; " +
+		"monitor: each request's delivered (path,node) sequence and errors equal those of the same request alone (reference); correspondence (gated cases): the composition of the C19 link-tracker model with two requestor models sharing one store. non-trivial = overlapping and gated; distinct = distinct terms"
+	run := func(path, kind string) error {
+		var cc concCase
+		if err := drv.ReplayCase(path, &cc); err != nil {
+			return err
+		}
+		return runConcCase(w, cc, kind)
+	}
+	if c.Replay != "" {
+		if err := run(c.Replay, "replay"); err != nil {
+			return err
+		}
+		return w.Flush()
+	}
+	for _, f := range c.CorpusFiles("concurrent") {
+		if err := run(f, "corpus"); err != nil {
+			return fmt.Errorf("%s: %w", f, err)
+		}
+	}
+	n := c.Count(240, 4000)
+	for i := 0; i < n; i++ {
+		if err := runConcCase(w, concCase{Seed: c.R.U64()}, "random"); err != nil {
+			return err
+		}
+	}
+	return w.Flush()
+}
+
 func runTraffic(c *drv.Ctx) error {
 	w := cw.New(c.Out, trafficHeader, "tcase", []cw.Check{{Name: "MISMATCH", Fn: "tcase_ok"}, {Name: "MON24", Fn: "tcase_mon"}})
 	w.ShardSize = 120
@@ -228,6 +260,8 @@ func main() {
 		drv.Main("pause", runPause)
 	case "rpause":
 		drv.Main("rpause", runRPause)
+	case "concurrent":
+		drv.Main("concurrent", runConcurrent)
 	default:
 		drv.Main("loader", runLoader)
 	}
